@@ -334,6 +334,11 @@ func ruleBounds(c *Ctx, r *Report) {
 		// an expression that did not exist on the reviewed tree (new or re-cut code): it must at
 		// least be related to a check that is in force at the site; the residual proof obligation
 		// is listed as information with its sub-goals
+		if !s.rel && checkedInHelper(s.ins) {
+			// the related check sits in a helper that is handed the container's address and the
+			// index (a grow-to-cover helper): listed like any other unproven new expression
+			s.rel = true
+		}
 		if !s.rel {
 			r.Bad(rule, key, pos, "new index/slice expression with no bounds check in force that mentions its index or its container (unproven sub-goals "+s.goal+"): "+shape+"  [nshape "+nshape+"]")
 			continue
@@ -626,9 +631,24 @@ func (c *Ctx) checkMapDeref(r *Report, fn *ssa.Function, lk *ssa.Lookup) {
 		}
 	}
 	bad := false
-	w := &Walk{Fn: fn, Assume: assume}
+	// helpers of the package are followed: a nil-safe method that is handed the element decides
+	// the test, and a dereference of its (nil) parameter inside it counts like one here
+	w := &Walk{Fn: fn, Assume: assume, Follow: followSamePkg(fn)}
 	w.Visit = func(in ssa.Instruction, env Env) bool {
-		if base, ok := isDeref[in]; ok {
+		base, ok := isDeref[in]
+		if !ok && in.Parent() != fn {
+			switch x := in.(type) {
+			case *ssa.FieldAddr:
+				if _, isP := x.X.(*ssa.Parameter); isP {
+					base, ok = x.X, true
+				}
+			case *ssa.UnOp:
+				if _, isP := x.X.(*ssa.Parameter); isP && x.Op == token.MUL {
+					base, ok = x.X, true
+				}
+			}
+		}
+		if ok {
 			if v := w.eval(base, env); v.Kind == 2 && v.B {
 				if !bad {
 					r.Bad(rule, key, c.ipos(in), "element of a map with pointer values is dereferenced on a path where the key may be absent (nil pointer dereference)")
@@ -1760,4 +1780,108 @@ func retInt(ro *RetOutcome, i int) (int64, bool) {
 		return ro.Vals[i].I, true
 	}
 	return 0, false
+}
+
+// checkedInHelper: the indexed container is loaded from an address that a dominating call hands
+// to a module function together with the index value, and that function compares the length of
+// what the address holds with (something computed from) its index parameter.
+func checkedInHelper(in ssa.Instruction) bool {
+	ia, ok := in.(*ssa.IndexAddr)
+	if !ok {
+		return false
+	}
+	ld, ok := ia.X.(*ssa.UnOp)
+	if !ok || ld.Op != token.MUL {
+		return false
+	}
+	sameAddr := func(a, b ssa.Value) bool {
+		if a == b {
+			return true
+		}
+		o1, f1, b1, ok1 := fieldOfAddr(a)
+		o2, f2, b2, ok2 := fieldOfAddr(b)
+		return ok1 && ok2 && o1 == o2 && f1 == f2 && sameValue(stripLoadOnce(b1), stripLoadOnce(b2))
+	}
+	idx := stripConv(ia.Index)
+	fn := in.Parent()
+	for _, b := range fn.Blocks {
+		for _, other := range b.Instrs {
+			call, isCall := other.(*ssa.Call)
+			if !isCall || !instrDominates(call, in) {
+				continue
+			}
+			g := call.Call.StaticCallee()
+			if g == nil || !inModule(g) || len(g.Blocks) == 0 {
+				continue
+			}
+			pa, pi := -1, -1
+			for i, a := range call.Call.Args {
+				if sameAddr(a, ld.X) {
+					pa = i
+				}
+				if sameValue(stripConv(a), idx) || (shapeOf(stripConv(a), 0) == shapeOf(idx, 0) && !strings.Contains(shapeOf(idx, 0), "φ")) {
+					pi = i
+				}
+			}
+			if pa < 0 || pi < 0 || pa >= len(g.Params) || pi >= len(g.Params) {
+				continue
+			}
+			// a comparison in g that involves len(*p) and derives from the index parameter
+			for _, gb := range g.Blocks {
+				for _, gi := range gb.Instrs {
+					bo, isBo := gi.(*ssa.BinOp)
+					if !isBo {
+						continue
+					}
+					switch bo.Op {
+					case token.LSS, token.LEQ, token.GTR, token.GEQ:
+					default:
+						continue
+					}
+					sh := shapeOf(bo, 0)
+					if strings.Contains(sh, "len(") && mentionsValue(bo, g.Params[pa], 0) && mentionsValue(bo, g.Params[pi], 0) {
+						return true
+					}
+				}
+			}
+		}
+	}
+	return false
+}
+
+func stripLoadOnce(v ssa.Value) ssa.Value {
+	if u, ok := v.(*ssa.UnOp); ok && u.Op == token.MUL {
+		return u.X
+	}
+	return v
+}
+
+// mentionsValue: the expression tree of v (operands of arithmetic, conversions, len, loads)
+// contains x.
+func mentionsValue(v, x ssa.Value, d int) bool {
+	if v == x {
+		return true
+	}
+	if d > 8 {
+		return false
+	}
+	switch y := v.(type) {
+	case *ssa.BinOp:
+		return mentionsValue(y.X, x, d+1) || mentionsValue(y.Y, x, d+1)
+	case *ssa.UnOp:
+		return mentionsValue(y.X, x, d+1)
+	case *ssa.Convert:
+		return mentionsValue(y.X, x, d+1)
+	case *ssa.Call:
+		if calleeName(&y.Call) == "builtin:len" {
+			return mentionsValue(y.Call.Args[0], x, d+1)
+		}
+	case *ssa.Phi:
+		for _, e := range y.Edges {
+			if mentionsValue(e, x, d+1) {
+				return true
+			}
+		}
+	}
+	return false
 }
